@@ -480,6 +480,7 @@ type e1func struct {
 	eligCache map[any]map[*ast.CallExpr]bool
 	loopAll   map[*ast.RangeStmt][]*Term // all(xs, F) facts established when the range loop is exhausted
 	brDepth   int
+	forAll    map[*ast.ForStmt][]*Term // the same for canonical index loops
 }
 
 func (e *e1) analyse(fi *FuncInfo) *e1func {
@@ -913,7 +914,9 @@ func (f *e1func) run() {
 			}
 		}
 
-		if f.widened || !f.updateLoopFacts(g, in) {
+		ch1 := f.updateLoopFacts(g, in)
+		ch2 := f.updateIndexLoopFacts(g, in)
+		if f.widened || !(ch1 || ch2) {
 			break
 		}
 	}
@@ -1122,6 +1125,27 @@ func (f *e1func) flowBlock(b *cfg.Block, cur []*fstate, sites *[]*e1site) [][]*f
 			}
 		}
 		outs[0], outs[1] = dedupStates(outs[0]), dedupStates(outs[1])
+		if b.Kind == cfg.KindForLoop {
+			if fs, ok := b.Stmt.(*ast.ForStmt); ok {
+				if iv, xs, ok := f.indexLoop(fs); ok {
+					// inside the body xs[i] is the current element; when the loop is exhausted the per-iteration facts hold for all
+					el := fact("inloop", mk("index", "", xs, iv), xs)
+					for i, st := range outs[0] {
+						if ns := st.with(el); ns != nil {
+							outs[0][i] = &fstate{facts: ns.facts, from: st.from, via: st.via}
+						}
+					}
+					if qs := f.forAll[fs]; len(qs) > 0 {
+						for i, st := range outs[1] {
+							if ns := st.with(qs...); ns != nil {
+								outs[1][i] = &fstate{facts: ns.facts, from: st.from, via: st.via}
+							}
+						}
+					}
+					outs[0], outs[1] = dedupStates(outs[0]), dedupStates(outs[1])
+				}
+			}
+		}
 		return outs
 	}
 	// type switch: go/cfg records no node for the case type; single-type clauses still give is/notis facts
